@@ -373,3 +373,45 @@ class NullLogger:
 
 def s_getLogger(*a, **k):
     return NullLogger()
+
+
+# ------------------------------------------------------------------------------- functools caches
+def s_lru_cache(maxsize=128, typed=False):
+    """functools.lru_cache on possibly symbolic arguments: hits are decided by (symbolic) equality of the arguments;
+    the cache lives in the current path (a module-level cache must not leak between explored paths)"""
+    import functools
+    from .values import sym_eq, b_and
+
+    def deco(fn):
+        key = ("lru", id(fn))
+
+        @functools.wraps(fn)
+        def wrapper(*args, **kwargs):
+            if not E.active():
+                return fn(*args, **kwargs)
+            store = E.cur().notes.setdefault(key, [])
+            for ent in store:
+                a2, k2, res = ent
+                if len(a2) == len(args) and set(k2) == set(kwargs):
+                    same = b_and(*([sym_eq(x, y) for x, y in zip(a2, args)] + [sym_eq(k2[n], kwargs[n]) for n in kwargs]))
+                    if bool(same):
+                        store.remove(ent)
+                        store.append(ent)
+                        return res
+            res = fn(*args, **kwargs)
+            store.append((args, dict(kwargs), res))
+            if maxsize is not None and len(store) > maxsize:
+                store.pop(0)
+            return res
+
+        wrapper.cache_clear = lambda: (E.cur().notes.pop(key, None) if E.active() else None)
+        return wrapper
+
+    if callable(maxsize):
+        fn, maxsize = maxsize, 128
+        return deco(fn)
+    return deco
+
+
+def s_cache(fn):
+    return s_lru_cache(None)(fn)
